@@ -37,7 +37,7 @@ MINIMUMS = {
 }
 N = {"quick": 1600, "thorough": 48000}
 NREAL = {"quick": 2, "thorough": 10}  # per shard
-TIMEOUT = {"quick": 900, "thorough": 10800}
+TIMEOUT = {"quick": 2400, "thorough": 14400}
 
 
 def classify(diffs):
